@@ -228,6 +228,18 @@ class C11(IRProp):
             if len(seen) != 1:
                 bads.append(dict(what=f"split_byte_interval groups the blocks {shape} in {len(seen)} different ways over 12 runs with fresh UUIDs: {sorted(seen)[:2]}",
                                  input={"blocks": shape}, finding=None))
+        # two aligned blocks in one interval: the layout must not follow the iteration order of the interval's block set (fresh UUIDs)
+        import random
+
+        from harness import ctxlevel
+        rndl = C.rng(self.tag + "-layout")
+        for _ in range({"quick": 40, "thorough": 300}["thorough" if boosted else tier]):
+            sd = rndl.randrange(1 << 30)
+            seen = {ctxlevel.aligned_patch_layout(random.Random(sd)) for _r in range(10)}
+            tie_cases += 1
+            if len(seen) != 1:
+                bads.append(dict(what=f"a patch with an alignment directive inserted into an aligned block gives {len(seen)} different layouts over 10 rebuilds of the same module: {sorted(seen)[:2]}",
+                                 input={"aligned_patch_layout_seed": sd}, finding=None))
         # the ABI objects are shared by every context of a process: what they hand out for a constraint set must not depend on what
         # was asked before (second pass, backwards) nor on the interpreter (fresh process, another hash seed)
         from harness import c16
